@@ -329,3 +329,68 @@ VARIANTS += [
                 "new": _TYPES_LINE + '_READERS = {"inv_object": InventoryObject, "inv_category": InventoryCategory, '
                                      '"inv_item": InventoryItem}\n'}]},
 ]
+
+# ---------------------------------------------------------------------- round 3
+_SKIP_OLD = '        if obj_dict.get("type") == "-1":\n'
+_SEG_OLD = "            segment_val = val.segments.get(key, val.raw_segments.get(key))  # type: ignore\n"
+
+VARIANTS += [
+    {"name": "R8 parse-side skip on an emitted enum member", "file": INV, "expect": "C20.R8",
+     "old": _SKIP_OLD, "new": '        if obj_dict.get("type") in (AssetType.UNKNOWN, AssetType.NONE):\n'},
+    {"name": "R8 parse-side skip on the member's integer value", "file": INV, "expect": "C20.R8",
+     "old": _SKIP_OLD, "new": '        if "type" in obj_dict and obj_dict["type"] == -1:\n'},
+    {"name": "R8 parse-side skip unless the type is one member", "file": INV, "expect": "C20.R8",
+     "old": _SKIP_OLD, "new": '        if obj_dict.get("type") != AssetType.CATEGORY:\n'},
+    {"name": "P R8 dead wire-string guard spelt differently", "file": INV, "expect": "silent",
+     "old": _SKIP_OLD, "new": '        node_type = obj_dict.get("type", None)\n        if "-1" == obj_dict.get("type", None):\n'},
+    {"name": "P R8 dead guard removed", "file": INV, "expect": "silent",
+     "old": _SKIP_OLD + '            LOG.warning(f"Skipping bad object with type == -1: {obj_dict!r}")\n            return None\n',
+     "new": ""},
+    {"name": "R9 raw bytes looked up first, parsed as fallback (if form)", "file": MESH, "expect": "C20.R9",
+     "old": _SEG_OLD,
+     "new": "            segment_val = val.raw_segments.get(key)\n            if segment_val is None:\n"
+            "                segment_val = val.segments.get(key)\n"},
+    {"name": "R9 raw bytes win whenever present", "file": MESH, "expect": "C20.R9",
+     "old": _SEG_OLD,
+     "new": "            segment_val = val.raw_segments[key] if key in val.raw_segments else val.segments.get(key)\n"},
+    {"name": "P R9 parsed first, raw fallback (if form)", "file": MESH, "expect": "silent",
+     "old": _SEG_OLD,
+     "new": "            segment_val = val.segments.get(key)\n            if segment_val is None:\n"
+            "                segment_val = val.raw_segments.get(key)\n"},
+    {"name": "P R9 parsed first, raw fallback (membership form)", "file": MESH, "expect": "silent",
+     "old": _SEG_OLD,
+     "new": "            if key in val.segments:\n                segment_val = val.segments[key]\n"
+            "            else:\n                segment_val = val.raw_segments.get(key)\n"},
+    {"name": "P R1 lookup bodies in shared module-level helpers", "expect": "silent",
+     "edits": [{"file": TEMPL, "old": "_ASSET_TYPE_BIDI: BiDiDict[str] = BiDiDict({\n",
+                "new": "def _to_legacy(m, table):\n    n = m.name.lower()\n    return table.forward.get(n, n)\n\n\n"
+                       "def _from_legacy(klass, table, text):\n    return klass[table.backward.get(text, text).upper()]\n\n\n"
+                       "_ASSET_TYPE_BIDI: BiDiDict[str] = BiDiDict({\n"},
+               {"file": TEMPL, "old": "        lower = self.name.lower()\n        return _ASSET_TYPE_BIDI.forward.get(lower, lower)",
+                "new": "        return _to_legacy(self, _ASSET_TYPE_BIDI)"},
+               {"file": TEMPL, "old": "        reg_name = _ASSET_TYPE_BIDI.backward.get(legacy_name, legacy_name).upper()\n        return cls[reg_name]",
+                "new": "        return _from_legacy(cls, _ASSET_TYPE_BIDI, legacy_name)"}]},
+    {"name": "R1 shared helper consults the wrong direction", "expect": "C20.R1",
+     "edits": [{"file": TEMPL, "old": "_ASSET_TYPE_BIDI: BiDiDict[str] = BiDiDict({\n",
+                "new": "def _from_legacy(klass, table, text):\n    return klass[table.forward.get(text, text).upper()]\n\n\n"
+                       "_ASSET_TYPE_BIDI: BiDiDict[str] = BiDiDict({\n"},
+               {"file": TEMPL, "old": "        reg_name = _ASSET_TYPE_BIDI.backward.get(legacy_name, legacy_name).upper()\n        return cls[reg_name]",
+                "new": "        return _from_legacy(cls, _ASSET_TYPE_BIDI, legacy_name)"}]},
+    {"name": "R6 factory-built switch with a stray version key", "expect": "C20.R6",
+     "edits": [{"file": ANIM, "old": "def _get_version_from_context(",
+                "new": "def _switch(old, new):\n    return se.ContextSwitch(_get_version_from_context, {(0, 1): old, (1, 1): new})\n\n\n"
+                       "def _get_version_from_context("},
+               {"file": ANIM, "old": "    pos: Vector3 = se.dataclass_field(se.ContextSwitch(\n        _get_version_from_context,\n        {\n"
+                                     "            (0, 1): se.Vector3,\n            (1, 0): se.Vector3U16(-5.0, 5.0),\n        },\n    ))",
+                "new": "    pos: Vector3 = se.dataclass_field(_switch(se.Vector3, se.Vector3U16(-5.0, 5.0)))"}]},
+]
+
+VARIANTS += [
+    {"name": "P R5 completion test hoisted into a named local", "file": TRANSFER, "expect": "silent",
+     "old": "        if not transfer.done() and len(transfer.chunks) == transfer.expected_chunks:\n            transfer.mark_done()",
+     "new": "        have_all = len(transfer.chunks) == transfer.expected_chunks\n"
+            "        if not transfer.done() and have_all:\n            transfer.mark_done()"},
+    {"name": "R5 completion also on an alternative that ignores the chunk count", "file": XFER, "expect": "C20.R5",
+     "old": "        if not xfer.done() and len(xfer.chunks) == xfer.expected_chunks:\n            xfer.mark_done()",
+     "new": "        if not xfer.done() and (len(xfer.chunks) == xfer.expected_chunks or packet_id.IsEOF):\n            xfer.mark_done()"},
+]
